@@ -748,7 +748,14 @@ func methodSigs(n *types.Named, self *types.Package) map[string]string {
 		if strings.HasPrefix(m.Name(), "_") {
 			continue
 		}
-		out[m.Name()] = typesOnly(m.Type().(*types.Signature), self)
+		sig := m.Type().(*types.Signature)
+		recv := "(T)" // the receiver kind is part of the API: T.G exists only for value receivers, and the method set of T differs
+		if rv := sig.Recv(); rv != nil {
+			if _, isPtr := types.Unalias(rv.Type()).(*types.Pointer); isPtr {
+				recv = "(*T)"
+			}
+		}
+		out[m.Name()] = recv + " " + typesOnly(sig, self)
 	}
 	return out
 }
